@@ -15,6 +15,7 @@ import (
 	"encoding/json"
 	"fmt"
 	"hash/crc32"
+	"math"
 	"os"
 	"os/exec"
 	"sort"
@@ -370,7 +371,91 @@ func runC22(c *Ctx) error {
 		return err
 	}
 	c22HotKey(c)
+	c22InsertRace(c)
 	return c22SameKey(c)
+}
+
+// c22InsertRace: writers insert NEW keys (ascending within each writer's key space, so fresh nodes
+// are linked at the ends of runs) as fast as they can; after Put(k) has returned the key is
+// published. Readers pick published keys and Get them, and scan the list counting the keys of one
+// writer: a published key must be found, and a scan that started after n keys of a writer were
+// published must see at least n of them. A node that is reachable before its own forward pointers
+// are set makes a traversal stop early.
+func c22InsertRace(c *Ctx) {
+	dur := 1200 * time.Millisecond
+	if c.N >= 3000 {
+		dur = 8 * time.Second
+	}
+	s := skl.NewSkiplist(512 << 20)
+	const W = 3
+	var published [W]atomic.Int64
+	key := func(w int, i int64) []byte { return y.KeyWithTs([]byte(fmt.Sprintf("w%d-%09d", w, i)), 1) }
+	var stop atomic.Bool
+	var missing, shortScan, gets, scans atomic.Int64
+	var firstBad atomic.Value
+	var wg sync.WaitGroup
+	for w := 0; w < W; w++ {
+		wg.Add(1)
+		go func(w int) {
+			defer wg.Done()
+			for i := int64(1); !stop.Load() && i < 900000; i++ {
+				s.Put(key(w, i), y.ValueStruct{Value: c22Val(w, uint64(i), uint32(i))})
+				published[w].Store(i)
+			}
+		}(w)
+	}
+	for r := 0; r < 6; r++ {
+		wg.Add(1)
+		go func(r int) {
+			defer wg.Done()
+			x := uint32(c.Seed)*31 + uint32(r)*7919
+			for !stop.Load() {
+				w := r % W
+				p := published[w].Load()
+				if p == 0 {
+					continue
+				}
+				if r < 4 {
+					x = x*1664525 + 1013904223
+					i := p
+					if x%3 != 0 {
+						i = 1 + int64(x>>8)%p // any published key; every third time the newest one
+					}
+					v := s.Get(key(w, i))
+					gets.Add(1)
+					if _, seq, ok := c22ValOK(v.Value); !ok || seq != uint64(i) {
+						if missing.Add(1) == 1 {
+							firstBad.Store(fmt.Sprintf("Get of published key w%d-%09d (newest published %d) returned %d value bytes", w, i, p, len(v.Value)))
+						}
+					}
+					continue
+				}
+				it := s.NewIterator()
+				n := int64(0)
+				pre := []byte(fmt.Sprintf("w%d-", w))
+				for it.Seek(y.KeyWithTs(pre, math.MaxUint64)); it.Valid() && bytes.HasPrefix(it.Key(), pre); it.Next() {
+					n++
+				}
+				it.Close()
+				scans.Add(1)
+				if n < p {
+					if shortScan.Add(1) == 1 {
+						firstBad.Store(fmt.Sprintf("a scan of writer %d's keys saw %d keys although %d had been published before it started", w, n, p))
+					}
+				}
+			}
+		}(r)
+	}
+	time.Sleep(dur)
+	stop.Store(true)
+	wg.Wait()
+	fb, _ := firstBad.Load().(string)
+	c.Oracle(missing.Load() == 0 && shortScan.Load() == 0, "skl-conc-published-key-not-reachable",
+		"a key whose Put had returned was not found by Get, or a scan that started afterwards ended before reaching it",
+		c22J{"gets": gets.Load(), "scans": scans.Load(), "missing": missing.Load(), "short_scans": shortScan.Load(),
+			"inserted": published[0].Load() + published[1].Load() + published[2].Load(), "first": fb})
+	c.Extra["insert_race_gets"] = gets.Load()
+	c.Count("insert-race-phase")
 }
 
 // c22HotKey: one writer overwrites ONE existing internal key (same key, same version) as fast as it
